@@ -678,6 +678,16 @@ def minmax_ok(sem, which):
 
 
 # ------------------------------------------------------------------------------------------------ H1 / H2
+def _never_short(lower, upper, var):
+    """upper - lower >= 64 for the first block indices"""
+    try:
+        lo = compile(ast.Expression(body=lower), '<lo>', 'eval')
+        up = compile(ast.Expression(body=upper), '<up>', 'eval')
+        return all(eval(up, {'__builtins__': {}}, {var: k}) - eval(lo, {'__builtins__': {}}, {var: k}) >= 64 for k in range(0, 6))
+    except Exception:
+        return False
+
+
 def rule_hashes(ctx, repo, it):
     r = ctx.rule('C06.H1', 'hash opcodes call the prescribed hash functions; RIPEMD-160 tables, initial state and padding shape equal the standard', engine='CONST', floor=14)
     rows = it.rows()
@@ -732,6 +742,8 @@ def rule_hashes(ctx, repo, it):
                     and lo_ == canon_arith(b_) and up_ == canon_arith('%s + 64' % b_)
                 if (lo_ in good_lo and up_ in good_up and rng_ok) or stride_ok:
                     r.ok(keyb, common.site_of(rf, c_), 'blocks %s[64*b:64*(b+1)]' % buf_)
+                elif rng_ok and lo_ in good_lo and _never_short(blk_.slice.lower, blk_.slice.upper, b_):
+                    r.undecided(keyb, common.site_of(rf, c_), 'the pieces `%s` start at the block boundaries and are at least 64 bytes long (longer than a block: harmless only if compress() reads 64 bytes of them)' % norm(blk_))
                 elif rng_ok and re.match(r'^[\d\s*+()<b]+$', norm(blk_.slice.lower).replace(b_, 'b')) and re.match(r'^[\d\s*+()<b]+$', norm(blk_.slice.upper).replace(b_, 'b')):
                     r.violated(keyb, common.site_of(rf, c_), 'RIPEMD-160 compresses `%s`: the 64-byte blocks are %s[64*b:64*(b+1)] (a block that starts early, ends early or overlaps its neighbour changes every digest '
                                'of an input that reaches it)' % (norm(blk_), buf_), sure=True)
